@@ -1,4 +1,122 @@
-//! C27 (placeholder until PolicyFront is bound)
-pub fn run(_args: &vrt::Args) {
-    vrt::die("front: not built yet")
+//! C27 — texts of `PolicyFront.tla` into the policy front ends.
+//!
+//! case: `{"entry": "doc"|"str"|"expr", "text": "...", "exp": {"parse": "ok|err|any",
+//!         "compile": "ok|err|any"}, ...}` (other keys describe the cell and are ignored here).
+//!
+//! `doc`  -> `parse_policy_document(text)`, `str` -> `parse_policy_str(text, V2)`,
+//! `expr` -> `parse_expression(text)`; a parsed policy is compiled with `Compiler::compile`
+//! (default, and with `debug(true)` + `stub_ffi(true)`) and `compile_interface`.
+//!
+//! Decides (C27): neither step panics; what comes back is a result or a structured error
+//! (kind / message / span are read).  `Display` of the errors is *outside* the property as
+//! worded: it is exercised inside its own `catch_unwind` and a panic there is reported as
+//! `adjacent` drift, never as a violation (DESIGN §7.9).  The spec's accept/reject prediction
+//! is compared where it makes one (drift).
+use aranya_policy_compiler::Compiler;
+use aranya_policy_lang::lang::{parse_expression, parse_policy_document, parse_policy_str, Version};
+use vrt::{json, Args, J as _};
+
+fn verdict<T, E>(r: &Result<T, E>) -> &'static str {
+    if r.is_ok() { "ok" } else { "err" }
+}
+
+/// Result writer that flushes every line: deeply nested input can overflow the parser's stack,
+/// which aborts the process; the driver then needs to know which case was running.
+struct LineOut(std::fs::File);
+
+impl LineOut {
+    fn emit(&mut self, v: vrt::Value) {
+        use std::io::Write as _;
+        let mut line = v.to_string();
+        line.push('\n');
+        self.0.write_all(line.as_bytes()).unwrap_or_else(|e| vrt::die(&format!("write: {e}")));
+    }
+    fn fail(&mut self, i: usize, step: i64, key: &str, msg: &str, obs: vrt::Value) {
+        self.emit(json!({"i": i, "ok": false, "step": step, "key": key, "msg": msg, "obs": obs}));
+    }
+    fn finish(self) {}
+}
+
+pub fn run(args: &Args) {
+    let path = args.output.as_deref().unwrap_or_else(|| vrt::die("--out required"));
+    let mut out = LineOut(std::fs::File::create(path).unwrap_or_else(|e| vrt::die(&format!("create {path}: {e}"))));
+    for (i, case) in args.read_input().iter().enumerate() {
+        let entry = case.s("entry");
+        let text = case.s("text");
+        let exp = case.g("exp");
+        let mut drift = 0u64;
+        let mut notes: Vec<String> = Vec::new();
+        let mut adjacent: Vec<String> = Vec::new();
+
+        // ---- parse
+        let parsed = vrt::catch_any(|| match entry {
+            "doc" => parse_policy_document(text).map(Some),
+            "str" => parse_policy_str(text, Version::V2).map(Some),
+            _ => parse_expression(text).map(|_e| None),
+        });
+        let parsed = match parsed {
+            Err(p) => {
+                out.fail(i, 0, &format!("C27:panic:parse:{entry}"),
+                    &format!("the {entry} parser panicked: {p}"), json!({"panic": p}));
+                continue;
+            }
+            Ok(r) => r,
+        };
+        let pv = verdict(&parsed);
+        if let Err(e) = &parsed {
+            // structured: kind, message, span are plain data
+            let structured = (format!("{:?}", e.kind).len(), e.message.len(), e.span.map(|s| (s.start(), s.end())));
+            let _ = structured;
+            let e2 = e.clone();
+            if let Err(p) = vrt::catch_any(move || e2.to_string()) {
+                adjacent.push(format!("ParseError Display panicked: {p}"));
+            }
+        }
+        let want_p = exp.s("parse");
+        if want_p != "any" && want_p != pv {
+            drift += 1;
+            notes.push(format!("parse {pv}, spec {want_p}"));
+        }
+
+        // ---- compile
+        let mut cv = "none";
+        if let Ok(Some(policy)) = &parsed {
+            let r = vrt::catch_any(|| {
+                let a = Compiler::new(policy).compile();
+                let b = Compiler::new(policy).debug(true).stub_ffi(true).compile();
+                let c = Compiler::new(policy).debug(false).compile_interface();
+                (a, b.is_ok(), c.is_ok())
+            });
+            match r {
+                Err(p) => {
+                    out.fail(i, 1, "C27:panic:compile",
+                        &format!("Compiler::compile panicked on a parsed policy: {p}"), json!({"panic": p}));
+                    continue;
+                }
+                Ok((a, _b, _c)) => {
+                    cv = verdict(&a);
+                    if let Err(e) = a {
+                        if let Err(p) = vrt::catch_any(move || e.to_string()) {
+                            adjacent.push(format!("CompileError Display panicked: {p}"));
+                        }
+                    }
+                }
+            }
+            let want_c = exp.s("compile");
+            if want_c != "any" && want_c != cv {
+                drift += 1;
+                notes.push(format!("compile {cv}, spec {want_c}"));
+            }
+        }
+        if !adjacent.is_empty() {
+            drift += 1;
+        }
+        let obs = json!({"parse": pv, "compile": cv, "notes": notes, "adjacent": adjacent});
+        if args.opt_bool("strict") && drift > 0 {
+            out.fail(i, 0, "C27:selftest-mismatch", "outcome differs from the spec's prediction", obs);
+        } else {
+            out.emit(json!({"i": i, "ok": true, "step": -1, "drift": drift, "obs": obs}));
+        }
+    }
+    out.finish();
 }
